@@ -43,6 +43,9 @@ pub struct DictOpts {
     pub forms: bool,
     pub escapes: bool,
     pub max_key_chars: usize,
+    /// compounds whose key is longer than the concatenation of its units (the last unit then
+    /// covers the rest) — legal for C01/C03, outside the precondition of C09
+    pub loose_compounds: bool,
     /// number of leading entries that carry the first POS of the pool in order (anchors)
     pub anchor_pos: usize,
 }
@@ -61,6 +64,7 @@ impl Default for DictOpts {
             forms: true,
             escapes: true,
             max_key_chars: 4,
+            loose_compounds: false,
             anchor_pos: 3,
         }
     }
@@ -203,7 +207,14 @@ pub fn add_compounds(rng: &mut Rng, lex: &mut Lexicon, system: Option<&Lexicon>,
             continue;
         }
         let unit_key = |lex: &Lexicon, r: &Ref| lex.target(r, system).key.clone();
-        let key: String = units.iter().map(|u| unit_key(lex, u)).collect();
+        let mut key: String = units.iter().map(|u| unit_key(lex, u)).collect();
+        let loose = opts.loose_compounds && rng.chance(1, 3);
+        if loose {
+            for _ in 0..1 + rng.below(2) {
+                let pool = *rng.pick(textgen::KEY_POOLS);
+                key.push_str(rng.s(pool));
+            }
+        }
         if key.len() > 200 {
             continue;
         }
@@ -219,7 +230,7 @@ pub fn add_compounds(rng: &mut Rng, lex: &mut Lexicon, system: Option<&Lexicon>,
         e.mode = if rng.chance(1, 2) { "C" } else { "*" };
         // B units: merge a random adjacent pair into a (possibly new) entry
         let mut b_units = units.clone();
-        if units.len() >= 3 && rng.chance(2, 3) {
+        if units.len() >= 3 && !loose && rng.chance(2, 3) {
             let at = rng.below(units.len() - 1);
             let merged_key = format!("{}{}", unit_key(lex, &units[at]), unit_key(lex, &units[at + 1]));
             let mut me = Entry::simple(
